@@ -16,11 +16,15 @@ RULE = (
     "read-only / dead blocks, int32 overflow, non-zero return and on exceeding the deterministic step budget "
     "(#statements x prod((T+1)*dim+2)); inputs are compared cell by cell before/after; returned arrays must be "
     "live and at least as long as the structure describes. non-trivial = a kernel executed >=1 loop iteration; "
-    "distinct by case hash. Thorough: the same kernels from emitted C under gcc ASan+UBSan."
+    "distinct by case hash. Huge-dimension stream: every index kept only in compressed levels everywhere is enlarged to "
+    "46341, 65536, 2^20, 2^30 or 2^31-1 (all such indexes at once) and evaluate, assemble and compute must run trap-free "
+    "with an unchanged result. Thorough: the same kernels from emitted C under gcc ASan+UBSan."
 )
 ASSUMPTIONS = [
     "well-formed inputs are produced by construction from level structures (what taco_structure_to_cffi accepts)",
     "element counts are tiny, so the 'fits 32-bit index arithmetic' precondition always holds",
+    "huge stream: only indexes that every operand and the output keep in compressed levels, and that every additive term "
+    "mentions, are enlarged (to 46341 ... 2^31-1); the stored entries are unchanged",
 ]
 
 
@@ -72,7 +76,80 @@ def check(case, ctx=None):
     return result(safety, labels, nontrivial, kcheck.case_id(case), s, {"kernel_runs": 2 + info.get("computes", 0)})
 
 
-STREAMS = {"main": {"strategy": cases, "check": check}}
+# ---------------------------------------------------------------------------- huge dimensions
+# "element counts fit 32-bit signed index arithmetic" is a statement about what is *stored*: a 65536 x 65536 or a
+# 2^30 x 2^30 tensor with five stored entries is a legal input as long as every such dimension is kept in
+# compressed levels only.  Nothing in a kernel may then multiply those dimensions together (int32 overflow), use
+# one as an allocation size, or count up to it.  Only dimensions[] changes on the abstract machine, so the large
+# sizes cost nothing.
+HUGE = [46341, 65536, 2**20, 2**30, 2**31 - 1]
+
+
+@st.composite
+def huge_cases(draw, tier):
+    from . import c16
+
+    c = draw(c16.cases(tier))
+    c["huge"] = draw(st.sampled_from(HUGE))
+    if draw(st.booleans()):
+        # appended outputs with a dense level below a compressed one multiply dimensions on purpose
+        c["capacity"] = draw(st.sampled_from(kprops.CAPACITIES))
+    return c
+
+
+def check_huge(case, ctx=None):
+    from .. import bridge
+    from .. import exprs as X
+    from ..machine import Trap
+    from ..runner import fail
+    from . import c16
+
+    classes = c16.qualifying_classes(case)
+    if not classes:
+        return result([], {"huge:no_qualifying_index"}, False, kcheck.case_id(case), None)
+    c = case
+    for cls in classes:
+        c = c16.force_compressed(c, cls)
+    big = {i for cls in classes for i in cls}
+    c["capacity"] = case.get("capacity")
+    labels = {"huge:qualifying", f"huge:indexes:{min(len(big), 3)}"}
+    status, payload = kcheck.build(c, ("evaluate", "assemble", "compute"))
+    if status != "ok":
+        w = payload if isinstance(payload, str) else payload[0]
+        return result([], labels | {f"huge:{status}:{w}"}, False, kcheck.case_id(c), None)
+    fns = bridge.functions_of(payload)
+    d = f"{c['assignment']} {c['formats']} sizes={c['sizes']} huge={sorted(big)}->{case['huge']} cap={c.get('capacity')}"
+    ov1, ovh = {}, {}
+    for t in [["t", c["target"][0], c["target"][1]]] + X.tensors(c["expr"]):
+        ov1[t[1]] = [c["sizes"][i] for i in t[2]]
+        ovh[t[1]] = [case["huge"] if i in big else c["sizes"][i] for i in t[2]]
+    fails = []
+    loops = 0
+    budget = 4 * bridge.step_budget(fns["evaluate"], c)
+    stored = {}
+    for tag, ov in (("x1", ov1), ("huge", ovh)):
+        try:
+            m, structs, _rv = bridge.run_on_machine(c, fns["evaluate"], dims_override=ov, budget=budget)
+            errs, st_, _a, _n = C.decode_struct(structs[c["target"][0]], strict=True)
+            stored[tag] = None if errs else st_
+            loops = max(loops, m.loop_iters)
+            m2, structs2, _rv = bridge.run_on_machine(c, fns["assemble"], dims_override=ov, budget=budget)
+            bridge.run_on_machine(c, fns["compute"], machine=m2, output_struct=structs2[c["target"][0]], dims_override=ov, budget=budget)
+        except Trap as t:
+            if tag == "x1":
+                # an unscaled failure is the main stream's business (and may be a known finding)
+                return result([], labels | {"huge:unscaled-trap"}, False, kcheck.case_id(c), None)
+            fails.append(fail(f"huge-trap:{t.kind}", f"{d}: {t.msg}", **kcheck.trap_info(t)))
+            break
+    if not fails and stored.get("x1") is not None and stored.get("huge") != stored.get("x1"):
+        fails.append(fail("huge-invalid:result-changes-with-dimension", d))
+    s = kcheck.sample_of(c)
+    s["huge_indexes"] = sorted(big)
+    s["huge_size"] = case["huge"]
+    return result(fails, labels, loops >= 1, kcheck.case_id(c) + str(case["huge"]), s, {"kernel_runs": 6, "huge_runs": 3})
+
+
+STREAMS = {"main": {"strategy": cases, "check": check}, "huge": {"strategy": huge_cases, "check": check_huge}}
 
 
 def shrink_case(case, bucket):
@@ -80,7 +157,26 @@ def shrink_case(case, bucket):
     return shrink.minimise_kernel_case(case, pred)[0] if pred(case) else case
 
 
+def shrink_huge(case, bucket):
+    pred = lambda c: any(f["bucket"] == bucket for f in check_huge(c)["fails"])  # noqa: E731
+    if not pred(case):
+        return case
+
+    def cands(c):
+        for cand in shrink.kernel_candidates(c):
+            cand = dict(cand)
+            cand["huge"] = c["huge"]
+            cand["pick"] = c.get("pick", 0)
+            yield cand
+
+    from ..runner import minimise
+
+    return minimise(case, cands, pred, 150)[0]
+
+
 def replay(payload):
+    if "huge" in payload["case"]:
+        return check_huge(payload["case"])["fails"]
     return check(payload["case"])["fails"]
 
 
@@ -98,6 +194,7 @@ def run(chk):
     chk.coverage_extra["machine_selftest_snippets"] = n_snippets
     n = 560 if chk.tier == "quick" else 30000
     chk.absorb(run_stream(__name__, "main", chk.tier, chk.seed, n), shrink=shrink_case)
+    chk.absorb(run_stream(__name__, "huge", chk.tier, chk.seed, 320 if chk.tier == "quick" else 12000), shrink=shrink_huge)
     if chk.tier != "quick":
         from ..runner import coverage_guided
 
